@@ -317,7 +317,11 @@ func c18Ops() []c18Op {
 			t.hold()
 			y := new(big.Int).SetBytes(univ.Pat(g.Len-1, t.k+31))
 			sh2 := d.GetSharedKey(x, y)
-			return fmt.Sprintf("%x ok=%v", sh[:8], bytes.Equal(sh2, g.Shared(x, y)))
+			first := "refused"
+			if len(sh) >= 8 {
+				first = engine.Hex(sh[:8])
+			}
+			return fmt.Sprintf("%s ok=%v", first, bytes.Equal(sh2, g.Shared(x, y)))
 		}},
 		{"to-proposal/edit/hold/again", func(t *tctx) string {
 			// every thread's SA uses the same PRF, integrity algorithm and group (AES key size differs): the proposal an
